@@ -15,6 +15,7 @@ TEXT = {
  "C08": ("proof", "Order axioms, eq/cmp coherence, agreement with the mathematical order and hash coherence (over the byte stream fed to any hasher) of the real Num::{cmp,eq,hash} and float_cmp for all machine integers and non-NaN floats, pairs and triples.", "DESIGN.md 6 C08"),
  "C09": ("proof", "Exactness of + - neg % on machine integers against i128 arithmetic for all operand pairs, routing of * through checked_mul, fall-back entered with the same operands; result kinds and bit-exact IEEE values of mixed/float + - * /; round/floor/ceil at the 2^63 boundary.", "DESIGN.md 6 C09"),
  "C10": ("proof", "Kani function contracts on the real position arithmetic (PosUsize::wrap, abs_bound, abs_index, skip_take, as_pos_usize) against an i128 spec of the one position model, for all 2^64 positions/lengths; callers verified against callee contracts.", "DESIGN.md 6 C10"),
+ "C11": ("other", "Only range/3: the native funs::range equals its manual `while` definition on concretely enumerated small operand triples, over an exact-integer abstract value type (bounded); plus once_or_empty. first/last/limit/skip, reduce/foreach and the defs.jq definitions are not decided.", "DESIGN.md 6 C11, 9.1"),
  "C12": ("other", "Only the native numeric kernel round/floor/ceil is decided (complete over f64 with the rounding function abstracted); the sorting/grouping kernels did not fit and everything in defs.jq is jq source.", "DESIGN.md 6 C12"),
  "C13": ("other", "implode decided per code for every value (complete); explode;implode = id on every byte string up to length 2 (quick) / 3 (thorough), exhaustive within the bound; trait-contract instances over an abstract value type.", "DESIGN.md 6 C13"),
  "C14": ("other", "CBOR reader-side integer arithmetic (Header::Positive / Negative -> machine integer) exact for every argument, per header variant. All other formats and the CBOR writer are not decided.", "DESIGN.md 6 C14"),
@@ -24,7 +25,6 @@ TEXT = {
 }
 NA = {
  "C06": "absence of system calls over all natives and decoders is not a pre/postcondition of any function; neither Kani nor Verus has an OS model or effect system (a syntactic scan would be a different technique)",
- "C11": "the natively implemented combinators (first/last/limit/skip, range, reduce/foreach) are closures over the interpreter context or boxed streams; the first-order engines under them (funs::range, fold::fold) exceeded the CBMC budget and once_or_empty alone does not carry the property; defs.jq definitions are jq source",
  "C17": "quantifies over process histories (stdout bytes, flush points, exit status across ~25 options); Cli::parse reads the process environment and the main loop is closures over dyn Write - no contractable function states the property",
  "C18": "quantifies over crash points and file-system states; neither verifier models a file system or process death",
  "C19": "quantifies over thread schedules; Kani has no thread support and Verus would need permission types the code does not use (Send + Sync is discharged by rustc's trait solver)",
